@@ -5,6 +5,9 @@
 //   trackdriver <script.ndjson> <trace.ndjson> [--skip N] [--watchdog S]
 #include <djinterop/djinterop.hpp>
 
+#include <zlib.h>
+
+#include <cstring>
 #include <filesystem>
 #include <fstream>
 #include <optional>
@@ -28,7 +31,7 @@ struct world
     std::optional<dj::database> db;
     std::vector<std::optional<dj::track>> th{std::nullopt};
     sqlite3* conn = nullptr;
-    bool rep = false, sweep = false, stale_get = false, dead = false, want_stmts = false;
+    bool rep = false, sweep = false, stale_get = false, dead = false, want_stmts = false, blobs = false;
 };
 std::string g_tmp_root;
 int g_dir_counter = 0;
@@ -40,7 +43,7 @@ json guarded_value(const char* what, F f)
     auto oc = vh::guarded(what, [&] { v = f(); });
     if (!oc.ok)
         return {{"throw", oc.ex}, {"std", oc.std_exc}};
-    return v;
+    return {{"v", v}};   // always a record, so that TLC can tell a value from a thrown exception by its fields
 }
 
 json getters(dj::track& t)
@@ -82,6 +85,126 @@ json getters(dj::track& t)
     return g;
 }
 
+// ---- the five performance-data columns of the 2.x Track table, read and written behind the library's back
+// (setter part of C04): payloads are logged un-framed (plain zlib), so that TLC can compare them byte for byte
+// with the specification's encoder.
+const char* const k_blob_cols[] = {"trackData", "beatData", "quickCues", "loops", "overviewWaveFormData"};
+bool col_compressed(const std::string& c) { return c != "loops"; }
+
+json payload_of(const unsigned char* p, int n, bool compressed)
+{
+    json bytes = json::array();
+    if (!p)
+        return {{"ok", false}, {"p", bytes}};
+    std::vector<unsigned char> out;
+    if (compressed)
+    {
+        if (n < 4)
+            return {{"ok", false}, {"p", bytes}};
+        uLongf len = ((uLongf)p[0] << 24) | ((uLongf)p[1] << 16) | ((uLongf)p[2] << 8) | (uLongf)p[3];
+        if (len > (1u << 26))
+            return {{"ok", false}, {"p", bytes}};
+        out.resize(len ? len : 1);
+        uLongf got = len;
+        if (n > 4 && uncompress(out.data(), &got, p + 4, (uLong)(n - 4)) != Z_OK)
+            return {{"ok", false}, {"p", bytes}};
+        if (n == 4)
+            got = 0;
+        out.resize(got);
+        if (got != len)
+            return {{"ok", false}, {"p", bytes}};
+    }
+    else
+        out.assign(p, p + n);
+    for (auto b : out)
+        bytes.push_back((int)b);
+    return {{"ok", true}, {"p", bytes}};
+}
+
+json blob_columns(world& w)
+{
+    json all = json::array();
+    vh::raw_reader rr{w.conn};
+    rr.query("SELECT id, trackData, beatData, quickCues, loops, overviewWaveFormData FROM Track ORDER BY id", [&](sqlite3_stmt* st) {
+        json cols;
+        for (int c = 0; c < 5; ++c)
+            cols[k_blob_cols[c]] = payload_of((const unsigned char*)sqlite3_column_blob(st, c + 1), sqlite3_column_bytes(st, c + 1),
+                                              col_compressed(k_blob_cols[c]));
+        all.push_back({{"id", (int64_t)sqlite3_column_int64(st, 0)}, {"cols", cols}});
+    });
+    return all;
+}
+
+// UPDATE Track SET <col> = <framed payload> through the plain SQLite API (no library code involved)
+bool write_foreign(world& w, int64_t id, const std::string& col, const json& payload)
+{
+    std::vector<unsigned char> raw;
+    for (auto& b : payload)
+        raw.push_back((unsigned char)b.get<int>());
+    std::vector<unsigned char> framed;
+    if (col_compressed(col))
+    {
+        uLongf bound = compressBound((uLong)raw.size());
+        framed.resize(4 + bound);
+        framed[0] = (unsigned char)(raw.size() >> 24);
+        framed[1] = (unsigned char)(raw.size() >> 16);
+        framed[2] = (unsigned char)(raw.size() >> 8);
+        framed[3] = (unsigned char)raw.size();
+        static const unsigned char none = 0;
+        if (compress2(framed.data() + 4, &bound, raw.empty() ? &none : raw.data(), (uLong)raw.size(), 6) != Z_OK)
+            return false;
+        framed.resize(4 + bound);
+    }
+    else
+        framed = raw;
+    bool known = false;
+    for (auto c : k_blob_cols)
+        known = known || col == c;
+    if (!known)
+        return false;
+    sqlite3_stmt* st = nullptr;
+    std::string sql = "UPDATE Track SET " + col + " = ?1 WHERE id = ?2";
+    if (__real_sqlite3_prepare_v2(w.conn, sql.c_str(), -1, &st, nullptr) != SQLITE_OK || !st)
+        return false;
+    static const unsigned char none = 0;
+    sqlite3_bind_blob(st, 1, framed.empty() ? &none : framed.data(), (int)framed.size(), SQLITE_TRANSIENT);
+    sqlite3_bind_int64(st, 2, id);
+    int rc = __real_sqlite3_step(st);
+    sqlite3_finalize(st);
+    return rc == SQLITE_DONE;
+}
+
+json be8(double x)
+{
+    uint64_t u;
+    std::memcpy(&u, &x, 8);
+    json a = json::array();
+    for (int i = 7; i >= 0; --i)
+        a.push_back((int)((u >> (8 * i)) & 0xff));
+    return a;
+}
+json bytes_of(const std::string& s)
+{
+    json a = json::array();
+    for (unsigned char c : s)
+        a.push_back((int)c);
+    return a;
+}
+json cue_bytes(const std::optional<dj::hot_cue>& c)
+{
+    if (!c)
+        return json::array();
+    return json::array({{{"label", bytes_of(c->label)}, {"off", be8(c->sample_offset)}, {"a", c->color.a}, {"r", c->color.r},
+                          {"g", c->color.g}, {"b", c->color.b}}});
+}
+json loop_bytes(const std::optional<dj::loop>& c)
+{
+    if (!c)
+        return json::array();
+    return json::array({{{"label", bytes_of(c->label)}, {"start", be8(c->start_sample_offset)}, {"end", be8(c->end_sample_offset)},
+                          {"a", c->color.a}, {"r", c->color.r}, {"g", c->color.g}, {"b", c->color.b}}});
+}
+
 json observe(world& w)
 {
     json o;
@@ -119,6 +242,8 @@ json observe(world& w)
     for (auto& t : w.db->tracks())
         ids.push_back(t.id());
     o["tracks"] = ids;
+    if (w.blobs)
+        o["bl"] = blob_columns(w);
     return o;
 }
 
@@ -163,6 +288,7 @@ void start_world(world& w, const json& r)
     w.sweep = r.value("sweep", false);
     w.stale_get = r.value("stale_get", false);
     w.want_stmts = r.value("stmts", false);
+    w.blobs = r.value("blobs", false) && w.v2;
     shim::reset_dbs();
     if (w.mode == "disk")
     {
@@ -217,7 +343,34 @@ json canon_field(const std::string& f, const json& v)
     return sj::to_json(s).at(f);
 }
 
-std::function<void()> make_setter(dj::track& t, const std::string& f, const json& v, json& in)
+// byte-level rendering of a setter argument (what the blob must hold afterwards), for the blob-level trace spec
+json arg_bytes(const std::string& f, const dj::track_snapshot& s)
+{
+    auto optd = [](const std::optional<double>& x) { return x ? json::array({be8(*x)}) : json::array(); };
+    if (f == "main_cue")
+        return {{"d", optd(s.main_cue)}};
+    if (f == "average_loudness")
+        return {{"d", optd(s.average_loudness)}};
+    if (f == "sample_rate")
+        return {{"d", optd(s.sample_rate)}};
+    if (f == "hot_cues")
+    {
+        json a = json::array();
+        for (auto& c : s.hot_cues)
+            a.push_back(cue_bytes(c));
+        return {{"cs", a}};
+    }
+    if (f == "loops")
+    {
+        json a = json::array();
+        for (auto& c : s.loops)
+            a.push_back(loop_bytes(c));
+        return {{"cs", a}};
+    }
+    return json::object();
+}
+
+std::function<void()> make_setter(dj::track& t, const std::string& f, const json& v, json& in, json& inb)
 {
     json j = json::object();
     if (f != "hot_cue_at" && f != "loop_at")
@@ -226,6 +379,7 @@ std::function<void()> make_setter(dj::track& t, const std::string& f, const json
         in = canon_field(f, v);
     }
     auto s = std::make_shared<dj::track_snapshot>(sj::from_json(j));
+    inb = arg_bytes(f, *s);
 #define S(name, call) if (f == name) return [&t, s] { call; }
     S("album", t.set_album(s->album));
     S("artist", t.set_artist(s->artist));
@@ -257,6 +411,7 @@ std::function<void()> make_setter(dj::track& t, const std::string& f, const json
         int i = v.at("i").get<int>();
         std::optional<dj::hot_cue> c = v.at("v").empty() ? std::nullopt : std::make_optional(sj::cue_of(v.at("v").at(0)));
         in = {{"i", i}, {"v", c ? json::array({sj::jcue(*c)}) : json::array()}};
+        inb = {{"i", i}, {"c", cue_bytes(c)}};
         return [&t, i, c] { t.set_hot_cue_at(i, c); };
     }
     if (f == "loop_at")
@@ -264,6 +419,7 @@ std::function<void()> make_setter(dj::track& t, const std::string& f, const json
         int i = v.at("i").get<int>();
         std::optional<dj::loop> c = v.at("v").empty() ? std::nullopt : std::make_optional(sj::loop_of(v.at("v").at(0)));
         in = {{"i", i}, {"v", c ? json::array({sj::jloop(*c)}) : json::array()}};
+        inb = {{"i", i}, {"c", loop_bytes(c)}};
         return [&t, i, c] { t.set_loop_at(i, c); };
     }
     throw std::runtime_error("unknown field " + f);
@@ -337,9 +493,11 @@ void exec_op(world& w, const json& op)
             auto& t = T(w, op);
             rec["t"] = t.id();
             rec["f"] = op.at("f");
-            json in;
-            f = make_setter(t, op.at("f").get<std::string>(), op.at("v"), in);
+            json in, inb;
+            f = make_setter(t, op.at("f").get<std::string>(), op.at("v"), in, inb);
             rec["in"] = in;
+            if (w.blobs)
+                rec["inb"] = inb;
             if (op.at("f") == "relative_path")
                 rec["pathinfo"] = pathinfo(op.at("v").empty() ? std::optional<std::string>{std::string()}
                                                                : std::optional<std::string>{sj::expand(op.at("v").at(0).get<std::string>())});
@@ -349,6 +507,22 @@ void exec_op(world& w, const json& op)
             auto& t = T(w, op);
             rec["t"] = t.id();
             f = [&w, &t] { w.db->remove_track(t); };
+        }
+        else if (name == "foreign")
+        {
+            // a blob as another writer (Engine DJ itself) would have stored it; `v` is the value it encodes (echoed for TLC)
+            auto& t = T(w, op);
+            int64_t id = t.id();
+            rec["t"] = id;
+            rec["col"] = op.at("col");
+            rec["payload"] = op.at("payload");
+            rec["v"] = op.at("v");
+            std::string col = op.at("col").get<std::string>();
+            json payload = op.at("payload");
+            f = [&w, id, col, payload] {
+                if (!write_foreign(w, id, col, payload))
+                    throw std::runtime_error("harness: could not store the foreign blob");
+            };
         }
         else if (name == "fixpoint")
         {
